@@ -232,6 +232,18 @@ def oracles(ctx, deep):
             scale = max(1.0, float(grad.abs().max()))
             if not torch.allclose(blk, grad, atol=2e-4 * scale, rtol=1e-4):
                 add(Violation("likelihood-gradient", "MRILogLikelihood differs from the gradient of 1/2 ||M F E x - y||^2 (max diff %.3g, scale %.3g) for %s" % (float((blk - grad).abs().max()), scale, cfg), {"config": cfg}, {"fn": "MRILogLikelihood", "centered": centered}))
+            # the block is a function of the mask given now: the same block instance called again with the mask tensor
+            # refilled in place (same object, same address) gives the gradient for the new contents
+            mask_h = mask.clone()
+            ll(x.permute(0, 3, 1, 2), y, S, mask_h)
+            mask_h.copy_(torch.rand(N, 1, h, w, 1, generator=g) < rng.choice([0.0, 0.5, 1.0]))
+            blk_h = ll(x.permute(0, 3, 1, 2), y, S, mask_h).permute(0, 2, 3, 1)
+            xh = x.clone().requires_grad_(True)
+            Axh = torch.where(mask_h == 0, torch.zeros(1), fwd(T.expand_operator(xh, S, dim=1), dim=(2, 3)))
+            (grad_h,) = torch.autograd.grad(0.5 * ((Axh - torch.where(mask_h == 0, torch.zeros(1), y)) ** 2).sum(), xh)
+            sc_h = max(1.0, float(grad_h.abs().max()))
+            if not torch.allclose(blk_h, grad_h, atol=2e-4 * sc_h, rtol=1e-4):
+                add(Violation("likelihood-gradient", "MRILogLikelihood called a second time on the same instance, with the sampling mask refilled in place, differs from the gradient for the new mask (max diff %.3g, scale %.3g) for %s" % (float((blk_h - grad_h).abs().max()), sc_h, cfg), {"config": cfg, "history": "mask refilled in place"}, {"fn": "MRILogLikelihood-history", "centered": centered}))
             ycons = fwd(T.expand_operator(x, S, dim=1), dim=(2, 3))
             z0 = ll(x.permute(0, 3, 1, 2), ycons, S, mask)
             if float(z0.abs().max()) > 1e-3 * max(1.0, float(ycons.abs().max())):
@@ -260,6 +272,15 @@ def oracles(ctx, deep):
                     add(Violation("cg-solves-normal-equations", "ConjGrad (%s) differs from the solution of (A*A + lambda I) x = A*y + lambda z (max diff %.3g, scale %.3g) for %s, lambda %s" % (rule, float((sol - ref).abs().max()), sc, cfg, float(lam)), {"config": cfg, "rule": rule, "lambda": float(lam)}, {"fn": "cg", "rule": rule}))
                 if float(r1) > float(r0) * (1 + 1e-4) + 1e-5:
                     add(Violation("cg-not-worse", "ConjGrad (%s) residual %.3g exceeds the starting residual %.3g for %s" % (rule, float(r1), float(r0), cfg), {"config": cfg, "rule": rule}, {"fn": "cg-worse", "rule": rule}))
+                # the solver started elsewhere than at z (zero, the exact solution, a random point): same solution, and an
+                # exact start is not left
+                for start_name, x0 in (("zero", torch.zeros_like(z)), ("exact solution", ref.clone()), ("random point", torch.randn(N, h, w, 2, generator=g))):
+                    solx = cgm.cg(x0, ym, S, mask, lam, z)
+                    rx0 = (rhs - Bm @ x0.reshape(-1).double()).norm()
+                    rx1 = (rhs - Bm @ solx.reshape(-1).double()).norm()
+                    if not torch.allclose(solx, ref, atol=5e-3 * sc, rtol=5e-3) or float(rx1) > float(rx0) * (1 + 1e-4) + 1e-3 * max(1.0, float(rhs.norm())):
+                        add(Violation("cg-solves-normal-equations", "ConjGrad.cg (%s) started from %s differs from the solution of (A*A + lambda I) x = A*y + lambda z (max diff %.3g, scale %.3g; residual %.3g -> %.3g) for %s, lambda %s" % (rule, start_name, float((solx - ref).abs().max()), sc, float(rx0), float(rx1), cfg, float(lam)), {"config": cfg, "rule": rule, "lambda": float(lam), "start": start_name}, {"fn": "cg-start", "rule": rule}))
+                        break
                 # a coarse tolerance: the loop leaves through the tolerance exit, and what it returns must be the iterate whose
                 # residual met the tolerance (also when one step solves the system: full mask, normalised maps)
                 for tol in (1e-2, 1e-3):
